@@ -36,6 +36,11 @@ METH = {'__call__': 'MCall', 'reduce': 'MReduce', 'accumulate': 'MAccumulate', '
         'at': 'MAt', 'reduceat': 'MReduceat'}
 
 
+def translate():
+    from translate import ufunc_dispatch as T
+    return {'Gen/UfuncDispatch.v': T.translate()}
+
+
 class NotImplementedReturn(TypeError):
     """__array_ufunc__ returned NotImplemented (NumPy turns that into a TypeError)"""
 
@@ -828,7 +833,8 @@ ASSUMPTIONS = [
     'arrays are writeable, buffers are whole arrays (no partial views / strides)',
     'mixing NumpyTensor with DiscretizedSpaceElement operands, the where= keyword and F-order are not modelled',
 ]
-TRUSTED = ['harness/c17.py observation of ODL objects (type, space, np.shares_memory, identity with out)',
+TRUSTED = ['translate/ufunc_dispatch.py (Python ast -> Gallina decision fragments), fail-closed',
+           'harness/c17.py observation of ODL objects (type, space, np.shares_memory, identity with out)',
            'C17/Arr.v exact semantics of the modelled ufunc methods (validated against NumPy by the raw half of each '
            'case); that its Q instance is the restriction of its R instance is PROVED (C17/Transfer.v) for every '
            'division-free ufunc, assumed only for true_divide / reciprocal']
@@ -1100,7 +1106,11 @@ def correspondence(rng, tier):
         desc['odl'] = odl_s
         desc['raw'] = raw_s
         cs.add(t, desc, None if 'err' in raw_s else key)
-    return [cs, legacy_cases(rng, tier), pspace_cases(rng, tier), wrap_cases(rng, tier)]
+    # the variant measured on the behaviour must be the one read off the source by the translator
+    vs = C.CaseSet('variant', ['C17.Model', 'C17.GenTie'], '(fun b : bool => Bool.eqb b gen_grow)', 'bool')
+    vs.add(C.b(measure_variants()['grow']), {'variant': 'v_grow measured on np.add(rn(3).one(), np.ones((2, 3)))'},
+           'v_grow')
+    return [cs, legacy_cases(rng, tier), pspace_cases(rng, tier), wrap_cases(rng, tier), vs]
 
 
 # ------------------------------------------------------------------ probes
